@@ -311,7 +311,7 @@ func c18NextHopPort(c *Ctx) {
 		c.bad(rule, "NewPreRouteItem/split", w.pos(f.Pos()), "the next hop is not split at the last ':' (strings.LastIndex(nextHop, \":\"))")
 		return
 	}
-	none := func(a Atom) bool { return a.Kind == "eqk" && a.K == -1 && strip(a.X) == ssa.Value(li) }
+	none := func(a Atom) bool { return a.Kind == "ltk" && a.K == 0 && strip(a.X) == ssa.Value(li) }
 	tls := func(a Atom) bool {
 		if a.Kind != "bool" {
 			return false
